@@ -587,6 +587,25 @@ class ObjModels:
 			self.wr(ip, st, a[1], ("hasher", h[1] + (("len", len(x)),) + tuple((key_of(e.fields[0]), e.fields[1]) for e in x)))
 			return UNIT
 
+		def vec_capacity(ip, st, a):
+			# the capacity of an allocation: an opaque value tied to WHERE the vector lives (two different
+			# objects with the same entries need not have the same capacity; one object always has its own)
+			b = a[0]
+			while isinstance(self.rd(ip, st, b), Ref):
+				b = self.rd(ip, st, b)
+			return ("capacity", b[0], b[1], tuple(b[2]))
+
+		def hasher_write(ip, st, a):
+			h = self.rd(ip, st, a[0])
+			self.wr(ip, st, a[0], ("hasher", h[1] + (("usize", a[1]),)))
+			return UNIT
+
+		def hash_slice(ip, st, a):
+			x = deref_val(ip, st, a[0])[1]
+			h = self.rd(ip, st, a[1])
+			self.wr(ip, st, a[1], ("hasher", h[1] + tuple((key_of(e.fields[0]), e.fields[1]) for e in x)))
+			return UNIT
+
 		def slice_iter(ip, st, a):
 			return Agg("SliceIter", None, (a[0], 0))
 
@@ -683,6 +702,43 @@ class ObjModels:
 			if fn is None:
 				raise MirError("<Vec<T> as UnorderedPartialEq>::unordered_eq not found in the MIR dump")
 			return [(st, CallFn(fn, [a[0], a[1]]))]
+
+		def iter_any_mir(ip, st, a):
+			"""`iter.any(p)` for one of the crate's own iterators (Values ...): std's contract — `next` until
+			the predicate holds (true) or the iterator ends (false); `next` and the predicate are MIR"""
+			it = self.rd(ip, st, a[0])
+			fn = prog.resolve("<%s as Iterator>::next" % it.ty, None, [])
+			c = ip.fn_value_call(a[1], [None])
+			if fn is None or c is None:
+				raise MirError("Iterator::any over %r with %r" % (it.ty, a[1]))
+			fi = len(st.frames) - 1
+			st.frames[fi].locals[900 + fi] = c.args[0]
+			out = []
+			work = [st]
+			while work:
+				s_ = work.pop()
+				for s2, r in ip.run_sub(s_, fn, [a[0]]):
+					if r.variant == "None":
+						out.append((s2, False))
+						continue
+					for s3, t in ip.run_sub(s2, c.fn, [Ref(fi, 900 + fi, ()), r.fields[0]]):
+						if t:
+							out.append((s3, True))
+						else:
+							work.append(s3)
+			return out
+
+		def zip_model(ip, st, a):
+			# the second argument is anything IntoIterator: a slice / Vec reference, or &Object (its entries)
+			b = a[1]
+			v = deref_val(ip, st, b)
+			if isinstance(v, Agg) and v.ty == "Object":
+				while isinstance(self.rd(ip, st, b), Ref):
+					b = self.rd(ip, st, b)
+				b = Ref(b[0], b[1], b[2] + (0,))
+			elif isinstance(v, Agg) and v.ty == "SliceIter":
+				return Agg("Zip", None, (a[0], v))
+			return Agg("Zip", None, (a[0], slice_iter(ip, st, [b])))
 
 		def zip_all(ip, st, a):
 			"""`a.iter().zip(b).all(f)`: std's contract — the predicate on the pairs in order up to the
@@ -990,8 +1046,12 @@ class ObjModels:
 			"<T as UnorderedPartialEq>::unordered_eq": value_unordered_eq,
 			"<Vec as unordered::UnorderedPartialEq>::unordered_eq": vec_unordered_eq,
 			"<Vec as UnorderedPartialEq>::unordered_eq": vec_unordered_eq,
+			"<Value as PartialEq>::eq": one(lambda ip, st, a: deref_val(ip, st, a[0]) == deref_val(ip, st, a[1])),
 			"<&bool as PartialEq>::eq": one(lambda ip, st, a: deref_val(ip, st, a[0]) == deref_val(ip, st, a[1])),
-			"<std::slice::Iter as Iterator>::zip": one(lambda ip, st, a: Agg("Zip", None, (a[0], slice_iter(ip, st, [a[1]])))),
+			"<std::slice::Iter as Iterator>::zip": one(zip_model),
+			"<object::Values as Iterator>::any": iter_any_mir,
+			"<Values as Iterator>::any": iter_any_mir,
+			"<object::ValuesWithIndex as Iterator>::any": iter_any_mir,
 			"<Zip as Iterator>::all": zip_all,
 			"IndexMap::contains_duplicate_keys": one(contains_dups),
 			"std::vec::from_elem": one(from_elem),
@@ -1011,6 +1071,10 @@ class ObjModels:
 			"<Vec as PartialEq>::eq": vec_eq,
 			"<Vec as Ord>::cmp": vec_cmp,
 			"<Vec as Hash>::hash": one(vec_hash),
+			"Vec::capacity": one(vec_capacity),
+			"<H as Hasher>::write_usize": one(hasher_write),
+			"<H as Hasher>::write_length_prefix": one(hasher_write),
+			"<object::Entry as Hash>::hash_slice": one(hash_slice),
 			"Option::Some": one(lambda ip, st, a: some(a[0])),
 			"Object::iter_mut": one(obj_iter_mut),
 			"<object::IterMut as IntoIterator>::into_iter": one(lambda ip, st, a: a[0]),
@@ -1198,6 +1262,12 @@ class ObjProgram:
 			for f in self.fns:
 				if re.search(pats[callee], f.header):
 					return f
+		# `next` of the crate's other object iterators (Values, ValuesWithIndex, ...)
+		m = re.match(r"^<(?:object::)?(\w+) as Iterator>::next$", callee)
+		if m and m.group(1) not in ("IterMut", "Indexes"):
+			for f in self.fns:
+				if "src/object/mod.rs" in f.header and re.search(r"::next\(_1: &mut (object::)?%s<" % m.group(1), f.header):
+					return f
 		# any other method of Object / Default for Object whose MIR is in the dump
 		m = re.match(r"^(?:<Object as \w+>|Object)::(\w+)$", callee)
 		if m and m.group(1) not in ("iter_mut", "get_entries", "get_entries_with_index"):
@@ -1282,6 +1352,7 @@ class Explorer:
 		self.samples = []
 		self.sample_every = 25
 		self.with_content = True
+		self.pair_law_depth = 3
 
 	# ---- running one MIR function to completion on a state whose root frame holds the object
 	def call(self, st, fn, args):
@@ -1354,7 +1425,7 @@ class Explorer:
 	def violation(self, st, history, label, detail):
 		if history and history[-1][0] == "canon" and label.startswith("C06:object-equals"):
 			label = "C06+C10:index-canonical-and-queryable-after-canonicalization"
-		if sum(1 for v in self.violations if v["label"] == label) >= 3:
+		if sum(1 for v in self.violations if v["label"] == label) >= (8 if label.startswith("C14:") else 3):
 			return
 		self.violations.append(dict(label=label, detail=detail, history=history, keys=self.keys.model(st), key_decisions=[[list(d), t] for d, t in st.aux.get("kpc", ())]))
 
@@ -1552,16 +1623,22 @@ class Explorer:
 		return out
 
 	def content_checks(self, st, model, hist):
-		"""C14: ==, cmp, partial_cmp, hash and clone depend on the entries only (an object with the
-		same entries and an EMPTY index is equal, compares Equal, hashes identically); the clone has
+		"""C14: ==, cmp, partial_cmp, hash and clone depend on the entries only (an object rebuilt
+		from the same entries by pushes is equal, compares Equal, hashes identically); the clone has
 		the same entries and the same index; a strict prefix is a different, smaller object"""
 		prog = self.prog
 		if not all(k in prog.by for k in ("@clone", "@eq", "@cmp", "@partial_cmp", "@hash")):
 			raise MirError("Object's Clone/PartialEq/Ord/Hash impls not found in the MIR dump")
-		o = self.obj(st)
-		twin = Agg("Object", None, (o.fields[0], ("imap", ())))
-		st.frames[0].locals[5] = twin
+		# the twin: a REAL object holding the same entries, rebuilt by interpreted pushes (so its index is
+		# consistent but owes nothing to this object's history)
+		st.frames[0].locals[5] = Agg("Object", None, (("vec", ()), ("imap", ())))
 		cur = [st]
+		for k_, v_ in model:
+			nxt_ = []
+			for s_ in cur:
+				for s2_, _ in self.call(s_, prog.by["push"], [Ref(0, 5, ()), ("key", k_), v_]):
+					nxt_.append(s2_)
+			cur = nxt_
 
 		def run(states, fn, args, want, label):
 			nxt = []
@@ -1574,8 +1651,8 @@ class Explorer:
 			return nxt
 
 		eqv = lambda r, s: r is True
-		cur = run(cur, prog.by["@eq"], [Ref(0, 1, ()), Ref(0, 5, ())], eqv, "C14:object-eq-ignores-the-index")
-		cur = run(cur, prog.by["@cmp"], [Ref(0, 1, ()), Ref(0, 5, ())], lambda r, s: isinstance(r, Agg) and r.variant == "Equal", "C14:object-cmp-ignores-the-index")
+		cur = run(cur, prog.by["@eq"], [Ref(0, 1, ()), Ref(0, 5, ())], eqv, "C14:object-eq-depends-on-the-entries-only")
+		cur = run(cur, prog.by["@cmp"], [Ref(0, 1, ()), Ref(0, 5, ())], lambda r, s: isinstance(r, Agg) and r.variant == "Equal", "C14:object-cmp-depends-on-the-entries-only")
 		cur = run(cur, prog.by["@partial_cmp"], [Ref(0, 1, ()), Ref(0, 5, ())], lambda r, s: isinstance(r, Agg) and r.variant == "Some" and r.fields[0].variant == "Equal", "C14:partial-cmp-is-some-cmp")
 		out = []
 		for s in cur:
@@ -1584,7 +1661,7 @@ class Explorer:
 			for s2, _ in self.call(s, prog.by["@hash"], [Ref(0, 1, ()), Ref(0, 6, ())]):
 				for s3, _ in self.call(s2, prog.by["@hash"], [Ref(0, 5, ()), Ref(0, 7, ())]):
 					if s3.frames[0].locals[6] != s3.frames[0].locals[7]:
-						self.violation(s3, hist, "C14:object-hash-ignores-the-index", "%r vs %r" % (s3.frames[0].locals[6], s3.frames[0].locals[7]))
+						self.violation(s3, hist, "C14:object-hash-depends-on-the-entries-only", "%r vs %r" % (s3.frames[0].locals[6], s3.frames[0].locals[7]))
 					else:
 						out.append(s3)
 		cur, out = out, []
@@ -1605,10 +1682,97 @@ class Explorer:
 				out += ok2
 		else:
 			out = cur
+		# laws on pairs of REAL, different objects (built by interpreted pushes, so with a working
+		# index): R = the entries in reverse order, T = the entries without the first one
+		if len(model) >= 2 and len(hist) <= self.pair_law_depth:
+			for s in out:
+				# on a fork: the order decisions made while comparing are not carried into the exploration
+				self.pair_laws(s.fork(), model, hist)
 		for s in out:
-			for k in (5, 6, 7):
+			for k in (5, 6, 7, 10, 11):
 				s.frames[0].locals.pop(k, None)
 		return out
+
+	def pair_laws(self, st, model, hist):
+		"""[surviving states]. For X in {R, T}: eq(A, X) and eq(X, A) both equal `the entry lists are
+		equal` (decided with the solver's key equalities); cmp(A, X) is Equal exactly then;
+		cmp(X, A) is the reverse of cmp(A, X); partial_cmp is Some(cmp); equal objects hash alike."""
+		prog = self.prog
+		EMPTY = Agg("Object", None, (("vec", ()), ("imap", ())))
+		ents = list(model)
+
+		def build(s, slot, items):
+			s.frames[0].locals[slot] = EMPTY
+			states = [s]
+			for k, v in items:
+				nxt = []
+				for s1 in states:
+					for s2, _ in self.call(s1, prog.by["push"], [Ref(0, slot, ()), ("key", k), v]):
+						nxt.append(s2)
+				states = nxt
+			return states
+
+		def lists_equal(s, a, b):
+			if len(a) != len(b):
+				return [(s, False)]
+			outs = [(s, True)]
+			for (ka, va), (kb, vb) in zip(a, b):
+				nxt = []
+				for s1, ok_ in outs:
+					if not ok_ or va != vb:
+						nxt.append((s1, False))
+						continue
+					nxt += [(s2, eq) for s2, eq in self.keys.split(s1, "eq", ka, kb)]
+				outs = nxt
+			return outs
+
+		REV = {"Less": "Greater", "Greater": "Less", "Equal": "Equal"}
+		survivors = []
+		for s0 in build(st, 10, list(reversed(ents))):
+			for s1 in build(s0, 11, ents[1:]):
+				alive = [s1]
+				for slot, other, name in ((10, list(reversed(ents)), "reversed"), (11, ents[1:], "tail")):
+					nxt = []
+					for s2 in alive:
+						for s3, same in lists_equal(s2, ents, other):
+							calls = (("eq_ax", "@eq", (1, slot)), ("eq_xa", "@eq", (slot, 1)), ("cmp_ax", "@cmp", (1, slot)), ("cmp_xa", "@cmp", (slot, 1)), ("pcmp_ax", "@partial_cmp", (1, slot)))
+							runs = [(s3, {})]
+							for key, fn, args in calls:
+								nruns = []
+								for cs, cres in runs:
+									# comparisons of keys whose order is still undecided fork: every branch is followed
+									for s4, r in self.call(cs, prog.by[fn], [Ref(0, args[0], ()), Ref(0, args[1], ())]):
+										nruns.append((s4, dict(cres, **{key: r})))
+								runs = nruns
+							for cur, res in runs:
+								self.pair_verdict(cur, res, same, name, slot, hist, nxt)
+					alive = nxt
+				survivors += alive
+		return survivors
+
+	def pair_verdict(self, cur, res, same, name, slot, hist, nxt):
+		prog = self.prog
+		REV = {"Less": "Greater", "Greater": "Less", "Equal": "Equal"}
+		bad = None
+		if res["eq_ax"] is not same or res["eq_xa"] is not same:
+			bad = ("C14:object-eq-is-entry-list-equality", "A vs its %s: eq gives %r / %r, the entry lists are %s" % (name, res["eq_ax"], res["eq_xa"], "equal" if same else "different"))
+		elif (res["cmp_ax"].variant == "Equal") is not same:
+			bad = ("C14:object-cmp-equal-exactly-when-eq", "A vs its %s: cmp gives %s, the entry lists are %s" % (name, res["cmp_ax"].variant, "equal" if same else "different"))
+		elif res["cmp_xa"].variant != REV[res["cmp_ax"].variant]:
+			bad = ("C14:object-cmp-is-antisymmetric", "A vs its %s: cmp(A, X) = %s but cmp(X, A) = %s" % (name, res["cmp_ax"].variant, res["cmp_xa"].variant))
+		elif not (res["pcmp_ax"].variant == "Some" and res["pcmp_ax"].fields[0].variant == res["cmp_ax"].variant):
+			bad = ("C14:partial-cmp-is-some-cmp", "A vs its %s: partial_cmp %r, cmp %s" % (name, res["pcmp_ax"], res["cmp_ax"].variant))
+		elif same:
+			cur.frames[0].locals[6] = ("hasher", ())
+			cur.frames[0].locals[7] = ("hasher", ())
+			(cur, _), = self.call(cur, prog.by["@hash"], [Ref(0, 1, ()), Ref(0, 6, ())])
+			(cur, _), = self.call(cur, prog.by["@hash"], [Ref(0, slot, ()), Ref(0, 7, ())])
+			if cur.frames[0].locals[6] != cur.frames[0].locals[7]:
+				bad = ("C14:equal-objects-hash-alike", "A and its %s are equal but hash differently" % name)
+		if bad:
+			self.violation(cur, hist, bad[0], bad[1])
+		else:
+			nxt.append(cur)
 
 	def explore_unordered(self, n_max, budget):
 		"""C15: for every pair of objects of the same size <= n_max (keys symbolic, values over {0, 1}):
@@ -2556,7 +2720,16 @@ def expected_lines(ops):
 			ix = [i for i, e in enumerate(m) if e[0] == k]
 			qs.append("%s:%s:%s:Some(%d)" % (k, ".".join(map(str, ix)), ".".join(kv(m[i]) for i in ix), ix[0]))
 		es = ",".join(kv(e) for e in m)
-		return "S %s Q %s C true %s Equal" % (es, ";".join(qs), es)
+
+		def cmp3(a, b):
+			return "Equal" if a == b else ("Less" if a < b else "Greater")
+
+		def law(x):
+			eq = str(m == x).lower()
+			return "%s %s %s %s Some(%s)%s" % (eq, eq, cmp3(m, x), cmp3(x, m), cmp3(m, x), " hash-same" if m == x else "")
+
+		laws = " L %s | %s" % (law(list(reversed(m))), law(m[1:])) if len(m) >= 2 else ""
+		return "S %s Q %s C true %s Equal H true B true true Equal true%s" % (es, ";".join(qs), es, laws)
 
 	def took(removed, c):
 		return "|".join(kv(removed[i]) if i < len(removed) else "-" for i in range(c))
@@ -3171,6 +3344,7 @@ def main():
 			else:
 				print(json.dumps(out, indent=1, default=str)[:4000])
 			return 0
+		ex.pair_law_depth = 3
 		ex.explore(a.depth, a.budget)
 		native = drvcheck.build_native(a.repo, a.build)
 		# translator validation: completed symbolic histories, instantiated with the solver's keys,
